@@ -253,6 +253,7 @@ def _c10(tier, seed):
 def _c11(tier, seed):
     q = tier == "quick"
     runs = ["H_C11_new_session()", "H_C11_rotation(1,1)", "H_C11_rotation(2,1)", "H_C11_rotation(1,2)", "H_C11_rotation(2,2)"]
+    runs += ["H_C11_rotation_nobody_waiting(%d)" % k for k in range(3)]
     if not q:
         runs += ["H_C11_rotation(3,1)", "H_C11_rotation(3,2)"]
     return [dict(name="salt", pkg=".", harness=NET_HARNESS + ["harness/root/c16.go", "harness/root/c11.go"], runs=runs, solver="z3", walllimit=900, timeout=3000, replay="schedule",
@@ -349,7 +350,7 @@ PROPS = {
     ),
     "C11": dict(
         jobs=_c11,
-        bounds={"quick": "1 and 2 requests in flight, every non-empty subset of them rejected with bad_server_salt, 1 and 2 successive rotations (symbolic salts), the others accepted and answered after the rotation; new_session_created with a symbolic salt; the library's own receive loop over a fake transport; probe request afterwards",
+        bounds={"quick": "1 and 2 requests in flight, every non-empty subset of them rejected with bad_server_salt, 1 and 2 successive rotations (symbolic salts), the others accepted and answered after the rotation; a rotation with nobody waiting (bad_server_salt naming an unused id, an answered request, the client's own acknowledgement); new_session_created with a symbolic salt; the library's own receive loop over a fake transport; probe request afterwards",
                 "thorough": "3 requests in flight"},
         outside="more pending requests / rotations; a key exchange earlier in the same process (stale serviceChannel entries); real sockets; schedules that differ only between yield points",
         assumptions=["cooperative scheduling model; context and tickers stubbed (tickers never fire)", "fake transport at the messages.Common level"],
